@@ -91,6 +91,17 @@ def event_table(prog: Program) -> RuleResult:
         raise AnalysisError("node_event not found")
     node_param = _node_param(fn)
     model = TreeModel(3)
+    # the kind of an event is a fact about the mapping: the classifier does not look at the unit costs
+    priced = [a for a in ast.walk(fn) if isinstance(a, ast.Attribute) and a.attr == "costs"]
+    if priced:
+        res.fail(
+            f"{MODEL}:ReconciliationOutput.node_event/cost-free",
+            f"node_event reads `{short(priced[0], 60)}`: the kind of a node would change with the cost vector, while the drawing, the "
+            "evaluator and the documented classification name it from the species of the node and of its children only",
+            mod,
+            priced[0],
+        )
+        return res
 
     def is_leaf_pred(value: bool):
         def pred(expr: ast.AST) -> Optional[bool]:
